@@ -155,6 +155,16 @@ def d2_valid(ctx):
             if isinstance(t, ast.Compare) and len(t.ops) == 1 and isinstance(t.ops[0], (ast.Eq, ast.NotEq, ast.Gt, ast.Lt)):
                 l, r = loc_name(t.left), t.comparators[0]
                 eq = isinstance(t.ops[0], ast.Eq)
+                # counter-based end detection (valid because iw counts yielded windows from 0 - D1 - and nwin is their number - D3)
+                if l == "self.iw" and isinstance(t.ops[0], (ast.Eq, ast.NotEq)):
+                    if isinstance(r, ast.Constant) and r.value == 0:
+                        return is_first if eq else (not is_first)
+                    try:
+                        d = (Evaluator(facts=_facts()).ev(r) - (Poly.sym("self.nwin") - Poly.const(1))).const_value()
+                    except Undecided:
+                        d = None
+                    if d == 0:
+                        return is_last if eq else (not is_last)
                 if l == f_names[0] and isinstance(r, ast.Constant) and r.value == 0:
                     if isinstance(t.ops[0], ast.Gt):
                         return not is_first
